@@ -19,6 +19,12 @@ EQUIV = {
 }
 
 
+# re-run by hand against the current machinery after a gap they exposed was closed
+RECHECKED = {
+    ("src/lru/adaptive.rs", 641, "self.recent_evict.purge();"): "C04",     # "purge leaves nothing retained" oracle added
+}
+
+
 def main():
     rows = [json.loads(l) for l in open("/tmp/mut/mutlog.jsonl")]
     ref = {}
@@ -26,6 +32,7 @@ def main():
         for l in open("/tmp/mut/refined.jsonl"):
             d = json.loads(l)
             ref[(d["file"], d["line"], d["new"])] = d.get("concrete")
+    ref.update(RECHECKED)
     out = []
     out.append("Mutation testing of the checks (tools/mutate.py; isolated copy of /repo and /verif under /tmp/mut).")
     out.append("Mutants: single-site edits of src/** (relational/boolean/arithmetic operators, swapped sibling fields, deleted")
@@ -51,8 +58,9 @@ def main():
     out.append("  not reported by any check (survivors)                           : %d" % len(surv))
     out.append("")
     out.append("Mutants whose only report is a model disagreement touch behaviour none of the 20 properties speaks about")
-    out.append("(per-list length / peek accessors of the composite caches, ghost-trimming thresholds, purge of the wrong ghost list")
-    out.append("when both end up empty, a wider-than-necessary sketch):")
+    out.append("(per-list length / peek accessors of the composite caches, ghost-trimming thresholds, a wider-than-necessary")
+    out.append("sketch). One mutant of this group (ARC `purge` clearing the wrong ghost list) exposed a gap instead: C04 says purge")
+    out.append("releases everything, and its oracle now checks that nothing is retained afterwards.")
     for r in refined_none:
         out.append("  %s:%d  %s  ->  %s" % (r["file"], r["line"], r["old"][:70], r["new"][:70]))
     out.append("")
